@@ -8,6 +8,7 @@ def ops_text(name):
     S = {
         "alloc_index": ["Stack::Pop:0", "Compute::Compute:0", "Memory::Alloc:0", "Stack::Pop:0", "Compute::ComputeEnd:0", "Stack::Pop:0"],
         "alloc_shrink": ["Stack::Pop:0", "Compute::Compute:0", "Stack::Dup:0", P(2), "Stack::Swap:0", "Alu::Sub:0", "Memory::Alloc:0", "Stack::Pop:0", P(7), "Alu::Add:0", P(0), "Memory::Store:0", "Compute::ComputeEnd:0"],
+        "repeat_counter": ["Stack::Pop:0", "Compute::Compute:0", "Access::RepeatCounter:0", "Stack::Pop:0", "Compute::ComputeEnd:0"],
         "store_index": ["Stack::Pop:0", "Compute::Compute:0", P(1), "Memory::Alloc:0", "Stack::Pop:0", P(0), "Memory::Store:0", P(0), "ParentMemory::Load:0", "Stack::Pop:0", "Compute::ComputeEnd:0"],
         "halt_if_index": ["Stack::Pop:0", "Compute::Compute:0", "TotalControlFlow::HaltIf:0", P(1), "Memory::Alloc:0", "Compute::ComputeEnd:0"],
         "no_end": ["Stack::Pop:0", "Compute::Compute:0", "Stack::Pop:0"],
@@ -20,14 +21,15 @@ def ops_text(name):
 
 def prepare(rp, ce, params):
     m = ce.get("model") or {}
-    names = sorted(["alloc_shrink", "alloc_index", "store_index", "halt_if_index", "no_end", "nested", "jump_past", "jump_first"])
+    names = sorted(["repeat_counter", "alloc_shrink", "alloc_index", "store_index", "halt_if_index", "no_end", "nested", "jump_past", "jump_first"])
     shape = names[trace_val(ce, "shape")]
     if (trace_val(ce, "depth") or trace_val(ce, "rep_depth") or trace_val(ce, "halt0")) and not ce.get("plain_parent"):
         return None, "parent inside a compute program / with repeat state / already halted: not realised by the replay program"
     below = (seq(m, "s") + [0] * 4)[:trace_val(ce, "slen")]
     mem = (seq(m, "m") + [0] * 4)[:trace_val(ce, "mlen")]
     b = sw(m.get("breadth", 0))
-    fields = dict(kind="vm_compute", ops=";".join(ops_text(shape)), stack=" ".join(map(str, below + [b])), memory=" ".join(map(str, mem)),
+    prefix = "Stack::Push:2;Stack::Push:1;Stack::Repeat:0" if ce.get("in_repeat") else ""
+    fields = dict(kind="vm_compute", prefix=prefix, ops=";".join(ops_text(shape)), stack=" ".join(map(str, below + [b])), memory=" ".join(map(str, mem)),
                   cost=str(m.get("cost", 1)), limit=str(m.get("limit", 2**64 - 1)))
 
     def judge(out):
@@ -39,4 +41,6 @@ def prepare(rp, ce, params):
 def variants(rp, ce, params):
     """the same program / breadth / stack / memory with a plain parent (top level, no repeat state, not halted)"""
     if trace_val(ce, "depth") == 0 and (trace_val(ce, "rep_depth") or trace_val(ce, "halt0")):
+        if trace_val(ce, "rep_depth"):
+            yield "parent inside a count-up repeat scope of 2", dict(ce, plain_parent=True, in_repeat=True)
         yield "plain parent", dict(ce, plain_parent=True)
